@@ -28,7 +28,7 @@ RULE = ("for every deriving operation of Annotation and Timeline (copy, crop x3,
         "update for timelines) to ONE side, and snapshot the other side again; at derivation time and after the mutations "
         "the identities of all reachable mutable containers (dict, list, set, SortedDict, SortedList, Timeline, Annotation) "
         "of the two sides and of the arguments are compared (separation, the premise of the frame theorem); plus purity of every query "
-        "(co_iter, *, serialisation, ==, chart, argmax, discretize, covers, ...) on receiver and arguments; "
+        "(co_iter, *, serialisation, ==, chart, argmax, discretize, covers, ...) on receiver and arguments, incl. plain lists / sets returned by queries that the caller edits before asking again; "
         "every label-taking query asked about absent labels, every segment-taking query about absent segments, internal views (copy=False) read, sweeps of all reads of Annotation and Timeline; regimes K0/K1; non-trivial = the derived object is non-empty and at least two mutations were applied")
 
 
